@@ -37,7 +37,7 @@ impl Projector {
             }
             Node::Section(_) => {
                 blocks.push(GraphBlock::Header(
-                    self.header_level as u8 + 1,
+                    self.header_level + 1,
                     iter.inlines(),
                 ));
 
